@@ -342,7 +342,7 @@ func (c *Ctx) runC13Case(idx int64, depth int, nRandom int64) {
 			return
 		}
 		c.Inc("exhaustive_sequences")
-		if runHistory(c, h) && idx%5003 == 0 {
+		if runHistory(c, h) && idx%5003 == 5002 {
 			c.Sample(h.describe())
 		}
 		return
